@@ -15,13 +15,10 @@ import (
 	"verif/harness/hx"
 )
 
-// Finding C13-rename-empty-path-cycle (notes/finding-C13-rename-empty-path-cycle.md): the rename key
-// "_" is unescaped to the empty selector; Do then copies the root's field list into a field of the
-// root. The family is generated once the finding is listed in known_findings.json.
-const renameCycleID = "C13-rename-empty-path-cycle"
+// Finding C13-rename-empty-path-cycle (notes/finding-C13-rename-empty-path-cycle.md, repaired by fix 4232b91):
+// the rename key "_" was unescaped to the empty selector and Do copied the root's field list into a field of
+// the root. The stream rename-empty-path keeps the family: with the repair the key is no operation.
 const renameCycleStream = "rename-empty-path"
-
-var renameCycleListed = knownListed(renameCycleID)
 
 func sxNum(s string) hx.Sx { return hx.L(hx.I(2), hx.S(s)) }
 func sxObj(kv ...hx.Sx) hx.Sx {
@@ -191,6 +188,9 @@ func genExtra(c *hmain.Ctx) {
 	c.W.Count(fmt.Sprintf("extra_small_trees_%d", len(small)))
 	do := func(stream string, which int, name string, cfgJSON string, t hx.Sx) hx.Sx {
 		obs := c.Do(stream, which, hx.L(hx.S(cfgJSON), t), true)
+		if which == 42 {
+			c.W.Oracle("cfg.ParseFieldSelector of a non-empty selector is a non-empty path", renameSelOK, cfgJSON)
+		}
 		outChanged(c, name, t, last(obs))
 		return obs
 	}
@@ -229,11 +229,19 @@ func genExtra(c *hmain.Ctx) {
 		if r.Chance(1, 3) {
 			t = tg.focused(false)
 		}
-		if renameCycleListed && r.Chance(1, 20) {
-			pairs = append(pairs, [2]string{"_", "x"})
+		if r.Chance(1, 12) {
+			at := r.Intn(len(pairs) + 1)
+			pairs = append(pairs[:at:at], append([][2]string{{"_", hx.Pick(r, []string{"x", "a", "new", ""})}}, pairs[at:]...)...)
 			stream = renameCycleStream
 		}
 		do(stream, 42, "rename_do", renameCfg(hx.Pick(r, []string{"", "true", "false"}), pairs), t)
+	}
+	// the key "_" alone and next to other keys, on every small tree
+	for _, cf := range []string{renameCfg("", [][2]string{{"_", "x"}}), renameCfg("true", [][2]string{{"_", "a"}}),
+		renameCfg("true", [][2]string{{"a", "x"}, {"_", "y"}, {"__", "z"}, {"b", "w"}})} {
+		for _, t := range small {
+			do(renameCycleStream, 42, "rename_do", cf, t)
+		}
 	}
 
 	// ---- 43 move
